@@ -21,14 +21,25 @@ import xml.etree.ElementTree as ET
 base=json.load(open('/root/.vp/BASELINE.json'))
 stable=set(base['stable_pass'])
 j=os.path.join(os.environ.get('CARGO_TARGET_DIR','target'),'nextest','pb','junit.xml')
-t=ET.parse(j)
 res={}
-for ts in t.getroot().iter('testsuite'):
-    suite=ts.get('name')
-    for tc in ts.iter('testcase'):
-        name=suite+'::'+tc.get('name')
-        ok = tc.find('failure') is None and tc.find('error') is None
-        res[name]=ok
+if os.path.exists(j):
+    t=ET.parse(j)
+    for ts in t.getroot().iter('testsuite'):
+        suite=ts.get('name')
+        for tc in ts.iter('testcase'):
+            name=suite+'::'+tc.get('name')
+            ok = tc.find('failure') is None and tc.find('error') is None
+            res[name]=ok
+else:
+    # no junit file (nextest writes it under the workspace's own target dir in some set-ups): fall back to the log, which
+    # lists every test that did not pass (status-level = fail) and the totals
+    log=open('/tmp/vbase.log').read()
+    bad=set()
+    for m in re.finditer(r'^\s+(?:FAIL|TIMEOUT|SIGABRT|SIGSEGV|ABORT)\s+\[[^\]]*\]\s+\(\s*\d+/\d+\)\s+(\S+)\s+(\S+)', log, re.M):
+        bad.add(m.group(1)+'::'+m.group(2))
+    ran=re.search(r'(\d+) tests run: (\d+) passed', log)
+    for s in stable: res[s]= s not in bad
+    print("(junit file not found: verdicts taken from the nextest log: %s)" % (ran.group(0) if ran else "no summary line"))
 missing=[s for s in stable if s not in res]
 failed=[s for s in stable if s in res and not res[s]]
 env=[s for s in failed+missing if 'fuzz_tests' in s]
